@@ -307,6 +307,14 @@ func (wk *Worker) runPath(t task) (res PathResult) {
 	it.steps = 0
 	it.depth = 0
 	it.journal = it.journal[:0]
+	it.gobBlobs = it.gobBlobs[:0]
+	it.gobHostile = false
+	for k := range it.gobW {
+		delete(it.gobW, k)
+	}
+	for k := range it.gobR {
+		delete(it.gobR, k)
+	}
 	for k := range it.mapSnap {
 		delete(it.mapSnap, k)
 	}
